@@ -96,11 +96,26 @@ def run(index: RepoIndex, rep) -> None:
     eq = index.func(GO, 'GridObject.__eq__')
     me, other = [a.arg for a in eq.node.args.args]
     fields: Set[str] = set()
-    for n in ast.walk(eq.node):
+    # new helper methods (`self._identity() == other._identity()`) are read through; a
+    # comparison of two tuples compares their components pairwise
+    from ..inline import inline_methods_by_name, inline_pure_exprs, pure_body_expr
+    from ..pinned_names import FUNCTIONS as _PF, METHODS as _PM
+    eq_e = pure_body_expr(eq.node)
+    if eq_e is not None:
+        eq_e = inline_pure_exprs(index, eq.module, eq.cls, eq_e, keep=tuple(_PF | _PM))
+        eq_e = inline_methods_by_name(index, eq_e, new_only=True)
+    for n in ast.walk(eq_e if eq_e is not None else eq.node):
         if isinstance(n, ast.Compare) and len(n.ops) == 1 and isinstance(n.ops[0], ast.Eq):
-            l, r = src(n.left), src(n.comparators[0])
-            if l.startswith(f'{me}.') and r == l.replace(f'{me}.', f'{other}.', 1):
-                fields.add(l[len(me) + 1:])
+            pairs = [(n.left, n.comparators[0])]
+            if isinstance(n.left, ast.Tuple) and isinstance(n.comparators[0], ast.Tuple) and \
+                    len(n.left.elts) == len(n.comparators[0].elts):
+                pairs = list(zip(n.left.elts, n.comparators[0].elts))
+            for l_, r_ in pairs:
+                l, r = src(l_), src(r_)
+                if l.startswith(f'{me}.') and r == l.replace(f'{me}.', f'{other}.', 1):
+                    fields.add(l[len(me) + 1:])
+                elif isinstance(n.left, ast.Tuple):
+                    fields.add(f'<{l} == {r}>')      # a mismatched pair is not a field
     f = index.func(REPR, 'default_grid_object_representation_convert')
     cv, _ = channels(f, index)
     rep.check(fields == {'type_index()', 'state_index', 'color'}, 'C16.R1', GO,
